@@ -126,7 +126,12 @@ func (e *Enc) canInline(fr *Frame, fn *ssa.Function) bool {
 	for _, b := range fn.Blocks {
 		n += len(b.Instrs)
 	}
-	return n <= 400
+	// closures and the small generic helpers of internal/x are always inlined; other in-repo
+	// functions only when small (bigger ones need a contract, otherwise they are havocked)
+	if fn.Parent() != nil || strings.HasPrefix(pkg.Pkg.Path(), modulePath+"/internal/x") {
+		return n <= 400
+	}
+	return n <= e.w.inlineBudget && fr.depth < 4
 }
 
 func (e *Enc) inline(fr *Frame, fn *ssa.Function, args []Val, bind []Val, st *State, rb Term) (Val, *State, Term) {
@@ -219,6 +224,10 @@ func (e *Enc) modAllHeapFor(inRepo bool) func(string) bool {
 		if strings.HasPrefix(c, "$") && c != "$alloc" {
 			return e.w.ambientGhost(c) // other ghost state is only changed by contracts that say so
 		}
+		if strings.HasPrefix(c, "F:") && e.w.immutableFieldComp(c) {
+			e.immut[c] = true
+			return false
+		}
 		return true
 	}
 }
@@ -251,8 +260,9 @@ func (e *Enc) applyContract(fr *Frame, ct *Contract, key string, sig *types.Sign
 		}
 	}
 	for k, rq := range ct.Requires {
-		f := e.evalBoolEnv(env, rq.Expr, st, st, rq)
-		e.ob(fr, "pre", fmt.Sprintf("pre@%s#%d.%d", short, n, k), rb, f, rq.Src, sitePos(site))
+		f, watch := e.evalBoolWatch(env, rq.Expr, st, st, rq)
+		o := e.ob(fr, "pre", fmt.Sprintf("pre@%s#%d.%d", short, n, k), rb, f, rq.Src, sitePos(site))
+		o.Watch = append(append(e.paramWatch(fr.top), watch...), e.contractWatch(fr, st, fr.top.entry)...)
 	}
 	// havoc
 	post := st
@@ -276,12 +286,8 @@ func (e *Enc) applyContract(fr *Frame, ct *Contract, key string, sig *types.Sign
 
 func (e *Enc) modFromContract(ct *Contract) func(string) bool {
 	if !ct.ModSet {
-		if ct.InRepo && !ct.Trusted {
-			// verified in-repo function without modifies clause: frame obligations are generated
-			// against "nothing" (see verifyFunc), so callers may rely on it
-			return func(c string) bool { return c == "$alloc" || e.w.ambientGhost(c) }
-		}
-		// trusted spec without modifies: conservative
+		// no modifies clause: nothing is known about the frame (frame obligations are only
+		// generated for functions that declare one), so callers havoc everything
 		return e.modAllHeapFor(ct.InRepo)
 	}
 	pats := ct.Modifies
@@ -768,9 +774,6 @@ func (e *Enc) addContractMods(ct *Contract, set map[string]bool, all, allRepo *b
 		*logs = append(*logs, ct.Logged)
 	}
 	if !ct.ModSet {
-		if ct.InRepo && !ct.Trusted {
-			return
-		}
 		*all = true
 		*allRepo = *allRepo || ct.InRepo
 		return
